@@ -46,9 +46,10 @@ PROPS = {
 }
 
 # coverage-directed families (lib/covfam, DESIGN section 22): appended as a stream of the properties whose operations they drive
-COVFAM = {'C01': (['add', 'sub', 'mul', 'div', 'sqrt'], 40000, 400000), 'C02': (['fma'], 80000, 800000), 'C08': (['rint*', 'nearbyint', 'modf'], 10000, 100000),
-          'C04': (['parse', 'fromstr*'], 300, 2000), 'C14': (['add', 'sub', 'mul', 'div', 'sqrt', 'fma', 'rint*', 'modf'], 30000, 300000),
-          'C15': (['add', 'sub', 'mul', 'div', 'sqrt', 'fma', 'rint*', 'modf', 'parse', 'fromstr*'], 20000, 200000)}
+COVFAM = {'C01': (['add', 'sub', 'mul', 'div', 'sqrt'], 50000, 500000), 'C02': (['fma'], 120000, 1200000), 'C08': (['rint*', 'nearbyint', 'modf'], 10000, 100000),
+          'C04': (['parse', 'fromstr*'], 300, 2000), 'C06': (['to_*', 'lrint', 'llrint', 'lround', 'llround'], 60000, 600000), 'C09': (['quantize'], 20000, 200000),
+          'C14': (['add', 'sub', 'mul', 'div', 'sqrt', 'fma', 'rint*', 'modf', 'to_*', 'quantize'], 40000, 400000),
+          'C15': (['add', 'sub', 'mul', 'div', 'sqrt', 'fma', 'rint*', 'modf', 'parse', 'fromstr*', 'to_*', 'quantize'], 30000, 300000)}
 for _k, (_pats, _nq, _nt) in COVFAM.items(): PROPS[_k]['streams'].append(('covfam', GC.gen_cov(_pats), _nq, _nt))
 
 for _k, _v in TABLES.items(): PROPS[_k]['tables'] = _v
@@ -69,7 +70,7 @@ LAYER_I = {'C13': ('A,C', ['bid128_is_signed', 'bid128_is_nan', 'bid128_is_inf',
            'C09': ('A,B', ['bid128_same_quantum', 'bid128_quantexp', 'bid128_llquantexp', 'bid128_quantum']),
            'C06': ('B', ['bid128_from_int32', 'bid128_from_uint32', 'bid128_from_int64', 'bid128_from_uint64']),
            'C18': ('T', ['bid128_total_order', 'bid128_total_order_mag']),
-           'C11': ('D,F', ['bid128_scalbln', 'bid128_scalbn', 'bid128_ldexp', 'bid_get_BID128']),
+           'C11': ('D,F,I', ['bid128_scalbln', 'bid128_scalbn', 'bid128_ldexp', 'bid_get_BID128', 'bid128_frexp']),
            'C19': ('E', ['bid_to_dpd128', 'bid_dpd_to_bid128']),
            'C03': ('G', ['bid128_quiet_greater', 'bid128_quiet_greater_equal', 'bid128_quiet_greater_unordered', 'bid128_quiet_less',
                          'bid128_quiet_less_equal', 'bid128_quiet_less_unordered', 'bid128_quiet_not_greater', 'bid128_quiet_not_less',
